@@ -19,11 +19,13 @@ import (
 func init() { register("C10", true, checkC10) }
 
 func checkC10(p *Prog, r *Report) {
-	r.Explain("CONS: every path through the body of ScanJPEG's marker loop — with the marker handlers inlined, paths that return ending the scan exempt — is enumerated and the byte counts it discards are summed as affine expressions in S = int(jr.size): the sum must be S + 2 for a length-bearing marker, 2 for SOI/EOI, 6 for DRI. A callback counts as consuming the window it was declared: ExifLength of the header for the Exif callback (the property's own proviso), limit − N for the io.LimitedReader given to the XMP callback whose residue N must then be discarded; the declared windows must themselves be S − 2 − len(prefix). Arithmetic that can wrap in a narrow type makes the amount undecided (a violation). ACC: on the same paths the amount added to jr.discarded equals the amount consumed, and only discard/peek touch the buffered reader. PFX: every string(buf[a:b]) == literal recogniser has b − a == len(literal) and starts after the 4 bytes of marker and length. PFXREC: each of the seven APP-segment recognisers, evaluated with the predicate grammar of C09, accepts exactly the headers whose bytes 4.. are its identifier constant — no fewer bytes compared (Extended XMP shares 16 bytes with XMP), none other. MARKER: the Exif and XMP hand-offs are reached only under marker == APP1 and the matching recogniser; the >>4 dispatch constants agree with the marker constants. WINDOW: when nextMarker reports a marker, jr.buf is the full result of the look-ahead peek taken at that marker. STOP: every return inside the marker loop is under marker == DQT, DHT or EOI (the scan never ends early because of what was already seen). HDR: the Exif header comes from the payload's own TIFF header with jr.discarded as its absolute offset. Behaviour over all marker sequences (fill bytes, nested thumbnails) is not decided — only these per-segment invariants.")
+	r.Explain("CONS: every path through the body of ScanJPEG's marker loop — with the marker handlers inlined, paths that return ending the scan exempt — is enumerated and the byte counts it discards are summed as affine expressions in S = int(jr.size): the sum must be S + 2 for a length-bearing marker, 2 for SOI/EOI, 6 for DRI. A callback counts as consuming the window it was declared: ExifLength of the header for the Exif callback (the property's own proviso), limit − N for the io.LimitedReader given to the XMP callback whose residue N must then be discarded; the declared windows must themselves be S − 2 − len(prefix). Arithmetic that can wrap in a narrow type makes the amount undecided (a violation). ACC: on the same paths the amount added to jr.discarded equals the amount consumed, and only discard/peek touch the buffered reader. PFX: every string(buf[a:b]) == literal recogniser has b − a == len(literal) and starts after the 4 bytes of marker and length. PFXREC: each of the seven APP-segment recognisers, evaluated with the predicate grammar of C09, accepts exactly the headers whose bytes 4.. are its identifier constant — no fewer bytes compared (Extended XMP shares 16 bytes with XMP), none other. EXLEN: the library's own Exif callback, DecodeJPEGIfd, sets its length to the unmodified header.ExifLength and ends its success path with discard(exifLength − po) — it consumes exactly the window CONS credits it with. MARKER: the Exif and XMP hand-offs are reached only under marker == APP1 and the matching recogniser; the >>4 dispatch constants agree with the marker constants. WINDOW: when nextMarker reports a marker, jr.buf is the full result of the look-ahead peek taken at that marker. STOP: every return inside the marker loop is under marker == DQT, DHT or EOI (the scan never ends early because of what was already seen). HDR: the Exif header comes from the payload's own TIFF header with jr.discarded as its absolute offset. Behaviour over all marker sequences (fill bytes, nested thumbnails) is not decided — only these per-segment invariants.")
 	r.Trusted("bufio Peek/Discard all-or-error", "JPEG: SOI/EOI carry no length, DRI has the fixed length 4; APP1 Exif prefix \"Exif\\0\\0\", XMP prefix \"http://ns.adobe.com/xap/1.0/\\0\"")
 	rulePathSum(p, r)
 	rulePFX(p, r, "jpeg", 4)
 	rulePfxRec(p, r)
+	ruleExLen(p, r)
+	r.Floor("EXLEN", 1)
 	r.Floor("PFXREC", 7)
 	ruleMarker(p, r)
 	ruleWindow(p, r)
@@ -988,12 +990,37 @@ func rulePfxRec(p *Prog, r *Report) {
 		env := &predEnv{pkg: fpk, wins: map[types.Object]window{}, strs: map[types.Object]string{}, p: p,
 			ints: map[types.Object]int64{}, defs: map[types.Object]ast.Expr{}}
 		env.wins[fpk.TypesInfo.Defs[fd.Type.Params.List[0].Names[0]]] = window{off: 0, length: -1, minLen: 1 << 16}
+		lit := constant.StringVal(cobj.Val())
 		got, err := env.evalStmts(fd.Body.List, rc[0])
 		if err != nil {
+			// outside the grammar (word compares, helper tables): the bytes it looks at are still decidable on SSA
+			if sf := p.SSA.FuncValue(fobj); sf != nil && len(sf.Params) == 1 {
+				read := map[int64]bool{}
+				unb := bufReadSet(p, sf, sf.Params[0], bufWin{0, -1}, read, map[string]bool{}, 0)
+				var missing, extra []string
+				for i := 0; i < len(lit); i++ {
+					if !read[int64(4+i)] {
+						missing = append(missing, fmt.Sprint(4+i))
+					}
+				}
+				for k := range read {
+					if k < 4 || k >= int64(4+len(lit)) {
+						extra = append(extra, fmt.Sprint(k))
+					}
+				}
+				sort.Strings(extra)
+				if unb == "" && len(missing) > 0 {
+					r.Bad("PFXREC", key, at, fmt.Sprintf("the recogniser never looks at byte(s) %s of the %d-byte identifier %q: a segment of another kind whose identifier agrees on the bytes that are compared is taken for this one", strings.Join(missing, ", "), len(lit), lit))
+					continue
+				}
+				if unb == "" && len(extra) > 0 {
+					r.Bad("PFXREC", key, at, fmt.Sprintf("the recogniser also depends on byte(s) %s outside the identifier %q", strings.Join(extra, ", "), lit))
+					continue
+				}
+			}
 			r.Undecided("PFXREC", key, at, "recogniser outside the predicate grammar: "+err.Error())
 			continue
 		}
-		lit := constant.StringVal(cobj.Val())
 		want := cube{}
 		for i := 0; i < len(lit); i++ {
 			var bs byteset
